@@ -222,12 +222,43 @@ func ruleDur1(c *Ctx) []*Ob {
 				// &Store{footer: X}
 				ok := true
 				why := ""
+				// a constructor helper (newStore(..., footer, ...)): judge the footer argument at each call site
+				type src struct {
+					og   ssa.Value
+					in   *ssa.Function
+					sink ssa.Instruction
+				}
+				var srcs []src
 				for _, og := range origins(st.Val) {
+					if p, isP := og.(*ssa.Parameter); isP && p.Parent() == f && !isExportedRoot(f) {
+						idx := -1
+						for k, q := range f.Params {
+							if q == p {
+								idx = k
+							}
+						}
+						lifted := false
+						for _, cs := range c.Callers(f) {
+							if idx >= 0 && idx < len(cs.Instr.Common().Args) {
+								for _, og2 := range origins(cs.Instr.Common().Args[idx]) {
+									srcs = append(srcs, src{og2, cs.Caller, cs.Instr})
+									lifted = true
+								}
+							}
+						}
+						if lifted {
+							continue
+						}
+					}
+					srcs = append(srcs, src{og, f, st})
+				}
+				for _, sr := range srcs {
+					og := sr.og
 					switch x := og.(type) {
 					case *ssa.Extract:
 						call, isCall := x.Tuple.(*ssa.Call)
 						if isCall && call.Call.StaticCallee() == readFooter && x.Index == 0 {
-							if g, w := precededAndGuardedBy(f, call, st); !g {
+							if g, w := precededAndGuardedBy(sr.in, call, sr.sink); !g {
 								ok, why = false, "footer from ReadFooter: "+w
 							} else if why == "" {
 								why = "footer is ReadFooter's result behind its nil-error edge"
